@@ -25,6 +25,8 @@ import Reamber.Lemmas.SMPairInv
 import Reamber.Lemmas.SMWriteEvents
 import Reamber.Lemmas.SMWriteChart
 import Reamber.Lemmas.SMDenoteFile
+import Reamber.Lemmas.SMRenderFile
+import Reamber.Lemmas.SMWriteText
 import Reamber.Lemmas.Snapper
 import Mathlib.Tactic.NormNum
 import Reamber.Generated.SMTables
@@ -632,7 +634,7 @@ theorem write_read_exact_chart (t0 : Rat) (cs : List BcSnap)
     simp only [hk, if_true, h1, h2, h3]
   · simp only [hk, if_false, h1]
 
-/-- **The MSD layer of a written file**: a text made of values `#p0:p1:…:pk;` (parameters without `# : ; \ /`),
+/-- **The MSD layer of a written file**: a text made of values `#p0:p1:…:pk;` (parameters without `# : ; \` and without `//`),
 comment lines `//…` and line breaks is parsed into exactly those values, parameters trimmed, in file order. -/
 theorem msd_renderItems (items : List Item) (hok : ∀ it ∈ items, ItemOk it) :
     msd (renderItems items) = some (valuesOf items) :=
@@ -648,12 +650,40 @@ def ChartWritten (t0 : Rat) (cs : List BcSnap) (c : WChart) (out : List (List St
     (c.notes.map (noteOfW (beatAt t0 cs))).Pairwise NoOverlap ∧
     writeChartRows c = .ok out
 
+/-- the measures emitted for such a chart: at least one, none empty, every row non-empty and made of note characters -/
+theorem chartWritten_rowsOK (t0 : Rat) (cs : List BcSnap)
+    (hwf : wfChanges cs = true) (hs : sortedSnaps cs = true) (h0 : firstAtZero cs = true)
+    (hgc : gridCompatible (grid defaultMaxDiv) cs = true) (hm : metronomeOk cs = true) (hM : ∀ c ∈ cs, c.met = 4)
+    (c : WChart) (out : List (List Str)) (h : ChartWritten t0 cs c out) : RowsOK out := by
+  obtain ⟨keys, hkeys, hk0, hne, hb, hts, hT, hE, hlen, hno, hw⟩ := h
+  have hbeats := written_beats_exact t0 cs hwf hs h0 hgc hm hM c hb hts
+  unfold writeChartRows at hw
+  simp only [hbeats, bind, Except.bind, hkeys] at hw
+  rw [show ((writeOrder c.notes).map (·.1)).map (beatAt t0 cs) = (writeOrder c.notes).map (fun o => beatAt t0 cs o.1) by
+    rw [List.map_map]; rfl, writer_slots] at hw
+  have hnn : ∀ s ∈ ((writeOrder c.notes).map (objEvent (beatAt t0 cs))).map slotOfEv, 0 ≤ s.measure := by
+    intro s hs'
+    obtain ⟨e, he, rfl⟩ := List.mem_map.mp hs'
+    exact slotOf_measure_nonneg _ _ _ (hE.beat_nonneg e he)
+  obtain ⟨_, hmem, hasc⟩ := measuresSorted_spec (((writeOrder c.notes).map (objEvent (beatAt t0 cs))).map slotOfEv)
+  have hasc' := hasc hnn
+  obtain ⟨_, _, hperm⟩ := write_read_chart keys (c.notes.map (noteOfW (beatAt t0 cs)))
+    ((writeOrder c.notes).map (objEvent (beatAt t0 cs))) (writeOrder_events _ _) hE _ out hasc' hmem hw hlen hno
+  refine ⟨?_, SM.written_rows_chars keys hk0 _ hE _ out hasc' hmem hw⟩
+  intro h
+  subst h
+  have : (pairAll (events ([] : List (List Str)))).notes = [] := rfl
+  rw [this] at hperm
+  have := hperm.symm.eq_nil
+  simp at this
+  exact hne this
+
 /-- the `#NOTES` value of a chart: tag, five header parameters, the emitted note data -/
 def notesValue (x : WChart × List (List Str) × (Str × Str × Str × Str × Str)) : List Str :=
   [tagNotes, x.2.2.1, x.2.2.2.1, x.2.2.2.2.1, x.2.2.2.2.2.1, x.2.2.2.2.2.2, renderRows x.2.1]
 
 /-- **`write_read_exact` — the whole file, any number of charts.**  Let `items` be the file (values, comment lines, line
-breaks; parameters without `# : ; \ /`) whose `#NOTES` values are, in order, the charts `L` — each with its five header
+breaks; parameters without `# : ; \` and without `//`) whose `#NOTES` values are, in order, the charts `L` — each with its five header
 parameters and the note data `renderRows out` of the measures `SMMap.write` emits for it (`ChartWritten`: C10's domain
 for the shared tempo list `cs`, objects on the snap grid, `EventsOK`, non-overlapping holds/rolls).  The numeric
 header lines enter through the renderer assumption in applied form: the `#OFFSET` parameter parses to `offsetSec`
@@ -699,6 +729,134 @@ theorem write_read_exact (t0 : Rat) (cs : List BcSnap)
     · rw [hci]; exact this.1
     · rw [hci]; exact this.2.2
 
+/-- **`render_items`** (was `render_items_partial`): the text `SMMapSet.write` returns — `Model/SM.lean: renderWritten`,
+the 22 lines of `_write_metadata` and the nine strings of every `SMMap.write` joined by line breaks, Python's number
+rendering being the parameter `sh`; compared character for character with the implementation's text on every case —
+is literally `renderItems` of `fileItems`: the 22 header values separated by line breaks, then per chart a line break,
+the banner comment line, the `#NOTES` value (tag, five indented header parameters each on its own line, the note data
+wrapped in line breaks) and two line breaks. -/
+theorem render_items (sh : Shows) (w : Written) (hs : ∀ tv ∈ w.strs, tv.1 = '#' :: tv.1.drop 1) :
+    renderWritten sh w = renderItems (fileItems sh w) :=
+  SM.render_items sh w hs
+
+/-- **`write_read_exact_text` — `write_read_exact` about `SM.write` itself.**  Let `w` be what `SM.write` returns for the
+header `h` and the charts (`Model/SM.lean`), every chart in the domain of `write_read_exact_chart` (`ChartWritten`: C10's
+domain for the shared tempo list, objects on the snap grid, `EventsOK`, non-overlapping holds/rolls), the header strings
+and the charts' type, description and difficulty free of `# : ; \` and `//` (a single `/` is fine; type and difficulty
+on one line).  The text the writer returns is `renderWritten sh w` (`render_items`; compared character for character
+with the implementation on every case), `sh` being Python's number rendering, of which only this is assumed: its
+outputs contain none of `# : ; \ /` (and `str(int)` no line break) — `ShowsOK` — and the `#OFFSET` and `#BPMS`
+parameters it produces parse back to the values written (`parseFloat (show q) = .ok q` in applied form), these values
+denoting the tempo list `cs` from `t0`.
+Then the StepMania denotation of that text exists, has the written offset and tempo pairs, is well-formed, has one
+chart per chart, and chart `i` is well-bracketed and has exactly the objects of `charts[i]`: kinds, columns, millisecond
+positions and hold lengths, as a multiset. -/
+theorem write_read_exact_text (sh : Shows) (hsh : ShowsOK sh) (t0 : Rat) (cs : List BcSnap)
+    (hwf : wfChanges cs = true) (hs : sortedSnaps cs = true) (h0 : firstAtZero cs = true)
+    (hgc : gridCompatible (grid defaultMaxDiv) cs = true) (hm : metronomeOk cs = true) (hM : ∀ c ∈ cs, c.met = 4)
+    (h : WHeader) (charts : List WChart) (w : Written) (hw : SM.write h charts = .ok w)
+    (hL : ∀ c ∈ charts, ∃ out, ChartWritten t0 cs c out)
+    (hstr : ∀ ta ∈ stringTags, CleanParam ((h.strs.lookup ta.2).getD []))
+    (hch : ∀ c ∈ charts, CleanParam c.chartType ∧ CleanParam c.description ∧ CleanParam c.difficulty ∧
+      '\n' ∉ c.chartType ∧ '\n' ∉ c.difficulty)
+    (hoff : parseFloat (trim (sh.rat w.offsetSec)) = .ok w.offsetSec)
+    (hbpm : parsePairs (trim (bpmsParam sh w.bpms)) = some w.bpms)
+    (ho : -(1000 * w.offsetSec) = t0) (hbp : changesOf w.bpms = cs) :
+    ∃ d, denote (renderWritten sh w) = some d ∧ d.offsetSec = some w.offsetSec ∧ d.bpms = some w.bpms ∧
+      d.chartsWellFormed = true ∧ d.charts.length = charts.length ∧
+      ∀ (i : Nat) (hi : i < charts.length) (hd : i < d.charts.length),
+        (d.charts[i]).wellBracketed = true ∧
+        (timedNotes w.offsetSec w.bpms d.charts[i]).Perm ((charts[i]).notes.map timedOfW) := by
+  obtain ⟨htags, hvals, hsel, hlen, hpairs⟩ := write_ok h charts w hw
+  -- every chart with the measures written for it
+  have hcw : ∀ p ∈ charts.zip w.charts, ChartWritten t0 cs p.1 p.2.measures := by
+    intro p hp
+    obtain ⟨out, keys, a1, a2, a3, a4, a5, a6, a7, a8, a9, a10⟩ := hL p.1 (List.of_mem_zip hp).1
+    have e : out = p.2.measures := Except.ok.inj (a10.symm.trans (hpairs p hp).1)
+    subst e
+    exact ⟨keys, a1, a2, a3, a4, a5, a6, a7, a8, a9, a10⟩
+  have hpair_of : ∀ wc ∈ w.charts, ∃ c, (c, wc) ∈ charts.zip w.charts := by
+    intro wc hwc
+    obtain ⟨i, hi, rfl⟩ := List.getElem_of_mem hwc
+    have hi' : i < (charts.zip w.charts).length := by rw [List.length_zip, hlen]; omega
+    refine ⟨charts[i]'(by omega), ?_⟩
+    have := List.getElem_mem hi'
+    rwa [List.getElem_zip] at this
+  have hrows : ∀ wc ∈ w.charts, RowsOK wc.measures := by
+    intro wc hwc
+    obtain ⟨c, hc⟩ := hpair_of wc hwc
+    exact chartWritten_rowsOK t0 cs hwf hs h0 hgc hm hM c wc.measures (hcw (c, wc) hc)
+  have hSO : StringsOK w := by
+    refine ⟨htags, ?_, hsel, ?_⟩
+    · intro tv htv
+      obtain ⟨ta, hta, e⟩ := hvals tv htv
+      rw [e]; exact hstr ta hta
+    · intro wc hwc
+      obtain ⟨c, hc⟩ := hpair_of wc hwc
+      obtain ⟨_, e1, e2, e3⟩ := hpairs (c, wc) hc
+      have := hch c (List.of_mem_zip hc).1
+      simp only at e1 e2 e3
+      rw [e1, e2, e3]
+      exact this
+  have hhash : ∀ tv ∈ w.strs, tv.1 = '#' :: tv.1.drop 1 :=
+    fun tv htv => (stringTags_text_facts tv.1 (strs_tag_mem w hSO tv htv)).1
+  -- the charts as `write_read_exact` wants them
+  let L : List (WChart × List (List Str) × (Str × Str × Str × Str × Str)) :=
+    (charts.zip w.charts).map (fun p => (p.1, p.2.measures, (trim p.2.chartType, trim p.2.description, trim p.2.difficulty,
+      trim (sh.int p.2.difficultyVal), trim (joinWith [','] (p.2.groove.map sh.rat)))))
+  have hLL : ∀ x ∈ L, ChartWritten t0 cs x.1 x.2.1 := by
+    intro x hx
+    obtain ⟨p, hp, rfl⟩ := List.mem_map.mp hx
+    exact hcw p hp
+  have hz : (charts.zip w.charts).map Prod.snd = w.charts := List.map_snd_zip (by omega)
+  have hnotes : (valuesOf (fileItems sh w)).filter (tagIs tagNotes) = L.map notesValue := by
+    rw [file_notes sh w hSO]
+    conv => lhs; rw [← hz]
+    rw [List.map_map, List.map_map]
+    apply List.map_congr_left
+    intro p hp
+    simp [notesValue, notesParams_trim sh p.2 (hrows p.2 (List.of_mem_zip hp).2)]
+  obtain ⟨d, hd, ho', hb', hwf', hlen', hall⟩ := write_read_exact t0 cs hwf hs h0 hgc hm hM (fileItems sh w)
+    (fileItems_ok sh hsh w hSO hrows) L hLL hnotes (trim (sh.rat w.offsetSec)) (trim (bpmsParam sh w.bpms))
+    w.offsetSec w.bpms (file_offset sh w hSO) hoff (file_bpms sh w hSO) hbpm ho hbp
+  have hLlen : L.length = charts.length := by simp [L, List.length_zip, hlen]
+  refine ⟨d, by rw [SM.render_items sh w hhash]; exact hd, ho', hb', hwf', by rw [hlen', hLlen], ?_⟩
+  intro i hi hdi
+  obtain ⟨_, hwb, hperm⟩ := hall i (by rw [hLlen]; exact hi) hdi
+  refine ⟨hwb, ?_⟩
+  have e : (L[i]'(by rw [hLlen]; exact hi)).1 = charts[i] := by simp [L, List.getElem_map, List.getElem_zip]
+  rw [e] at hperm
+  exact hperm
+
+/-- **The `#BPMS` parameter reads back**: `",\n".join(f"{beat}={bpm}")` over number texts (non-empty, no whitespace,
+no ',' and '=') that parse back to their values is parsed by the specification into exactly the written pairs. -/
+theorem parsePairs_bpmsParam (sh : Shows) (h : ShowsParse sh) (bpms : List (Rat × Rat)) :
+    parsePairs (bpmsParam sh bpms) = some bpms :=
+  SM.parsePairs_bpmsParam sh h bpms
+
+/-- **`write_read_exact_show`**: `write_read_exact_text` with the renderer assumption per number — every text
+`sh.rat q` is a number text (non-empty, no whitespace, none of `# : ; \ / , =`) with `parseFloat (sh.rat q) = .ok q`,
+`sh.int i` has none of `# : ; \ /` and no line break — instead of the two applied-form hypotheses. -/
+theorem write_read_exact_show (sh : Shows) (hsh : ShowsOK sh) (hsp : ShowsParse sh) (t0 : Rat) (cs : List BcSnap)
+    (hwf : wfChanges cs = true) (hs : sortedSnaps cs = true) (h0 : firstAtZero cs = true)
+    (hgc : gridCompatible (grid defaultMaxDiv) cs = true) (hm : metronomeOk cs = true) (hM : ∀ c ∈ cs, c.met = 4)
+    (h : WHeader) (charts : List WChart) (w : Written) (hw : SM.write h charts = .ok w)
+    (hL : ∀ c ∈ charts, ∃ out, ChartWritten t0 cs c out)
+    (hstr : ∀ ta ∈ stringTags, CleanParam ((h.strs.lookup ta.2).getD []))
+    (hch : ∀ c ∈ charts, CleanParam c.chartType ∧ CleanParam c.description ∧ CleanParam c.difficulty ∧
+      '\n' ∉ c.chartType ∧ '\n' ∉ c.difficulty)
+    (ho : -(1000 * w.offsetSec) = t0) (hbp : changesOf w.bpms = cs) :
+    ∃ d, denote (renderWritten sh w) = some d ∧ d.offsetSec = some w.offsetSec ∧ d.bpms = some w.bpms ∧
+      d.chartsWellFormed = true ∧ d.charts.length = charts.length ∧
+      ∀ (i : Nat) (hi : i < charts.length) (hd : i < d.charts.length),
+        (d.charts[i]).wellBracketed = true ∧
+        (timedNotes w.offsetSec w.bpms d.charts[i]).Perm ((charts[i]).notes.map timedOfW) := by
+  apply write_read_exact_text sh hsh t0 cs hwf hs h0 hgc hm hM h charts w hw hL hstr hch ?_ ?_ ho hbp
+  · rw [trim_noWs _ (fun c hc => ((hsp.text w.offsetSec).2 c hc).1)]
+    exact hsp.parse _
+  · rw [trim_bpmsParam sh hsp]
+    exact SM.parsePairs_bpmsParam sh hsp _
+
 /-!
 what is still missing for the full `write_read_exact` for the single statement "denote (write ms) = ms":
 Proved chain: `written_beats_exact` (slotted beat = `beatAt t`) → `slot_beat_exact` (row denotes that beat) →
@@ -711,10 +869,10 @@ NOT proved (`write_read_exact` for the whole file stays `_partial`):
 * (proved since: `measuresSorted_spec`, `writeOrder_events`, `written_rows_clean`, and the one-chart assembly
   `write_read_exact_chart`)
 * (proved since: the MSD layer `msd_renderItems` and the whole-file theorem `write_read_exact` for any number of charts);
-* `render_items_partial`: that the text `SMMapSet.write` produces *is* `renderItems items` for the items built from the
-  header and the charts (the writer's 22 header lines, the dashed comment line, the five indented header parameters
-  and `"\n" ++ rows ++ "\n"` trimmed to `renderRows out`), and that header strings with a single `/` are harmless (the
-  lemma asks for parameters without any `/`);
+* (proved since: `render_items` and `write_read_exact_text` — the theorem now speaks about the text of `SM.write`
+  itself; header strings with single `/` are covered);
+* (proved since: `parsePairs_bpmsParam` and `write_read_exact_show` — the renderer assumption is now per number:
+  `parseFloat (sh.rat q) = .ok q` on number texts);
 * the numeric header lines (`#OFFSET`, `#SAMPLESTART`, `#SAMPLELENGTH`, bpm values): they depend on Python's float
   `repr`; the assumption to be carried is `parseFloat (show q) = .ok q` for the renderer `show` (a parameter, as in C01).
 The check evaluates the whole composition on every case (S).
